@@ -138,6 +138,37 @@ Proof.
     + inversion E; subst; auto.
     + inversion E; subst; auto.
 Qed.
+(* the forms of progn converted during Call and written back afterwards *)
+Definition dsok (st : state) (ds : list (option (nat * callee))) : Prop :=
+  Forall (fun d => exists st0 a, same_tabs st0 st /\ d = deferred st0 a) ds.
+Lemma same_tabs_trans : forall a b c, same_tabs a b -> same_tabs b c -> same_tabs a c.
+Proof. intros a b c [h1 [h2 h3]] [k1 [k2 k3]]. repeat split; congruence. Qed.
+Lemma dsok_step : forall st st1 ds, same_tabs st st1 -> dsok st ds -> dsok st1 ds.
+Proof.
+  intros st st1 ds T D. unfold dsok in *. eapply Forall_impl; [|exact D].
+  intros d (st0 & a & T0 & E). exists st0, a. split; [eapply same_tabs_trans; eauto|exact E].
+Qed.
+Lemma fold_apply_def_good : forall ds st, dsok st ds -> good st (fold_left apply_def ds st).
+Proof.
+  induction ds as [|d ds IH]; simpl; intros st D; [apply good_refl|].
+  inversion D as [|? ? (st0 & a & T0 & E) D']; subst.
+  pose proof (apply_def_good st0 st a T0) as G.
+  eapply good_trans; [exact G|]. apply IH. eapply dsok_step; [apply G|exact D'].
+Qed.
+Lemma fold_apply_def_out : forall ds st, out (fold_left apply_def ds st) = out st.
+Proof. induction ds as [|d ds IH]; simpl; intros st; [reflexivity|]. rewrite IH. apply apply_def_out. Qed.
+Lemma eval_progn_good : forall ev, goodP ev -> forall forms st en v ds r st', dsok st ds ->
+  eval_progn ev st en forms v ds = (r, st') -> good st st'.
+Proof.
+  intros ev G. induction forms as [|f rest IH]; simpl; intros st en v ds r st' D E.
+  - inversion E; subst. apply fold_apply_def_good; exact D.
+  - destruct (ev st en f) as [r1 st1] eqn:E1. pose proof (G _ _ _ _ _ E1) as G1. destruct r1.
+    + eapply good_trans; [exact G1|]. eapply IH; [|exact E].
+      unfold dsok. apply Forall_app. split; [eapply dsok_step; [apply G1|exact D]|].
+      constructor; [|constructor]. exists st, f. split; [apply G1|reflexivity].
+    + inversion E; subst; auto.
+    + inversion E; subst; auto.
+Qed.
 Lemma eval_if_good : forall ev, goodP ev -> forall args st en r st',
   eval_if ev st en args = (r, st') -> good st st'.
 Proof.
@@ -211,6 +242,7 @@ Proof.
              [ match type of E with context [apply_bi ?b ?vs ?o] => destruct (apply_bi b vs o) as [r1 o1] end;
                inversion E; subst; eapply good_trans; [exact EA|apply good_set_out]
              | inversion E; subst; auto ]; fail).
+      * eapply eval_progn_good; eauto. constructor.
       * eapply eval_if_good; eauto.
       * eapply eval_case_good; eauto.
     + destruct (eval_args (evalM n) st en args) as [ar st1] eqn:EA.
@@ -383,6 +415,24 @@ Proof.
       * inversion E; subst. split; [discriminate|auto].
       * rewrite B, FT in E. inversion E; subst. split; [discriminate|auto].
 Qed.
+Lemma eval_progn_sim : forall n ft, simP n ft -> forall forms st en v ds rS oS, Inv st -> Rel st ft ->
+  eval_seqS (evalS n ft) en (out st) forms v = (rS, oS) ->
+  exists rM st', eval_progn (evalM n) st en forms v ds = (rM, st') /\ sim1 rS oS rM st'.
+Proof.
+  intros n ft IH. induction forms as [|f rest IHf]; simpl; intros st en v ds rS oS I R E.
+  - inversion E; subst. eexists _, _. split; [reflexivity|]. split; [|auto].
+    intros _. split; [reflexivity|apply fold_apply_def_out].
+  - destruct (evalS n ft en (out st) f) as [r1 o1] eqn:E1.
+    destruct (IH st en f r1 o1 I R E1) as (rM & st1 & EM & [S1 S2]). rewrite EM.
+    pose proof (evalM_good n _ _ _ _ _ EM) as [T1 I1].
+    destruct r1 as [w| |].
+    + destruct (S1 eq_refl) as [-> O1]. rewrite <- O1 in E.
+      apply (IHf st1 en (norm w) _ rS oS (I1 I) (same_tabs_rel _ _ _ T1 R) E).
+    + inversion E; subst. pose proof (S2 eq_refl). destruct rM; [discriminate| |];
+        (eexists _, _; split; [reflexivity|]; split; auto).
+    + inversion E; subst. pose proof (S2 eq_refl). destruct rM; [discriminate| |];
+        (eexists _, _; split; [reflexivity|]; split; auto).
+Qed.
 Lemma eval_case_sim : forall n ft, simP n ft -> forall args st en rS oS, Inv st -> Rel st ft ->
   eval_caseS (evalS n ft) en (out st) args = (rS, oS) ->
   exists rM st', eval_case (evalM n) st en args = (rM, st') /\ sim1 rS oS rM st'.
@@ -476,6 +526,7 @@ Proof.
             eexists _, _. split; [reflexivity|]. split; auto.
             intros C. destruct (A1 C) as [Q1 Q2]. split; congruence. }
         destruct b; try (apply STRICT; [discriminate|exact E]).
+        -- apply (eval_progn_sim n ft IH); auto.
         -- apply (eval_if_sim n ft IH); auto.
         -- apply (eval_case_sim n ft IH); auto.
       * pose proof (wrapper_user st id f I B) as W.
@@ -505,6 +556,7 @@ Proof.
         -- (* no definition: S says undefined-function; M may do something else, but never yields a value *)
            inversion E; subst.
            assert (NV : exists rM st', (match wrapper st id f with
+               | WOk (CB BProgn) => eval_progn (evalM n) st en args VNil []
                | WOk (CB BIf) => eval_if (evalM n) st en args
                | WOk (CB BCase) => eval_case (evalM n) st en args
                | WOk (CB b) => match eval_args (evalM n) st en args with
@@ -1048,6 +1100,7 @@ Proof.
   destruct e as [z|x|id xs|gx]; auto. destruct xs as [|[z|f|i ys|gy] args]; auto.
   destruct (builtin_of f) as [b|].
   - destruct b; try (rewrite (eval_argsS_ext _ _ IH); reflexivity).
+    + apply eval_seqS_ext; auto.
     + apply eval_ifS_ext; auto.
     + unfold eval_caseS. destruct args as [|k clauses]; auto.
       rewrite (eval_argsS_ext _ _ IH). destruct (eval_argsS (evalS n ft') en o [k]) as [[[|key [|? ?]]|r] o1]; auto.
